@@ -285,7 +285,7 @@ structure DeclOk (c : Cmp) (old new : Decl) : Prop where
   loop3 : (loops c old new).2.2.1 = []
   missing : ∀ d ∈ (loops c old new).2.2.2.map (·.2), checkRemoval (removedNames new.pragmas) d = []
   cases : checkEnumCases old.cases new.cases = []
-  confs : old.shape = .composite → checkConformance c old.confs new.confs = []
+  confs : old.shape ≠ .attachment → checkConformance c old.confs new.confs = []
 
 theorem checkDecl_nil (c : Cmp) (old new : Decl) (h : checkDecl c old new = []) : DeclOk c old new := by
   obtain ⟨nkind, nname, nfields, nconfs, ncases, npragmas, nbase, ncomps, natts, nifaces⟩ := new
@@ -313,8 +313,9 @@ theorem checkDecl_nil (c : Cmp) (old new : Decl) (h : checkDecl c old new = []) 
       simpa [mem_sortByName, loops, Decl.pragmas, Decl.composites, Decl.attachments, Decl.interfaces] using hd
     · intro hs
       have hk' : old.kind = nkind := by simpa using hk
-      have : shapeOf nkind = Shape.composite := by rw [← hk']; exact hs
-      simpa [hs, this, Decl.confs] using h9
+      have hsh : shapeOf nkind = old.shape := by rw [← hk']; rfl
+      rw [hsh] at h9
+      cases hsh' : old.shape <;> simp_all [Decl.confs]
 
 theorem nodeCompat_of_ok (c : Cmp) (R : String) (hroot : c.root = some R)
     (himp : ∀ x, lookupLast x c.expImports = lookupLast x c.foundImports)
